@@ -17,7 +17,7 @@ func init() {
 			"D2 (structural part; bounds are C18-D1) — primitive decoders and the plain decoder's skip arms return io.EOF before any store to the cursor. "+
 			"D3 refusals are wired — the default arm of every flag dispatch (sketch decoder, both fallback decoders, mapping.Decode, generic and paginated bin decoders) returns a non-nil error or delegates to a decoder that does; a mapping mismatch returns an error and the mapping is only assigned under the nil-or-Equals guard; every success return of the sketch decoder has passed the missing-mapping test. "+
 			"D4 bin decoders succeed only after the announced number of items: every exit of an item loop is controlled by the decoded count or returns a non-nil error. "+
-			"SHARED (obligations of other properties that decide clauses this property states too, re-evaluated here under their home rule ids): C19-D2/D3 (Equals of the three mappings: same-type comma-ok test and the symmetric tolerance table over gamma AND offset of the two operands). "+
+			"SHARED (obligations of other properties that decide clauses this property states too, re-evaluated here under their home rule ids): C19-D2/D3 (Equals of the three mappings: same-type comma-ok test and the symmetric tolerance table over gamma AND offset of the two operands). C18-D1 (the primitive decoders, unrolled completely: every byte read is preceded by its own length test, end of input is io.EOF with nothing consumed). "+
 			"NOT DECIDED: panics from absurd-but-well-formed input (an index of 2^62 handed to a dense store); enumeration of truncation points is replaced by the every-path argument.",
 		"one obligation per (call site × path class) for D1, per decoder arm for D3, per loop exit for D4; non-trivial = required a path or dominance evaluation",
 		false, runC08)
@@ -58,6 +58,8 @@ func runC08(c *Ctx) {
 	c08ItemLoops(c, a)
 	// "a stream whose mapping differs from the receiver's is reported" rests on the mappings' Equals
 	c.shared(func() { c19Equals(c, mappingInfos(c, "C08")) }, func(o *Obligation) bool { return true })
+	// "no input makes a decoder panic; running out of input is io.EOF": every byte read of the primitive decoders is guarded
+	c.shared(func() { c18Decoders(c) }, func(o *Obligation) bool { return true })
 }
 
 // moduleErrCallee: the callee (static or interface method) is declared in the module and returns an error.
@@ -104,6 +106,23 @@ func c08ErrDiscipline(c *Ctx, a *sketchAnchors) {
 	const rule = "C08-D1"
 	g := newCallGraph(c.P, c.Mod)
 	reach := g.reach(decoderRoots(c, a)...)
+	// function literals created by a reachable function run as part of it (the fallback decoders are passed as closures)
+	for changed := true; changed; {
+		changed = false
+		for f := range reach {
+			for _, an := range f.AnonFuncs {
+				if !reach[an] {
+					reach[an] = true
+					changed = true
+					for g2 := range g.reach(an) {
+						if !reach[g2] {
+							reach[g2] = true
+						}
+					}
+				}
+			}
+		}
+	}
 	sites := 0
 	nfn := 0
 	for _, f := range sortedFuncs(reach) {
